@@ -168,7 +168,7 @@ func (fc *FnCtx) callModifies(x ssa.CallInstruction) ([]keySort, bool) {
 			}
 			var out []keySort
 			for _, l := range leavesOf(et) {
-				out = append(out, keySort{"elem|" + typeName(et) + l.Suffix, arrSort(true, l.Sort)})
+				out = append(out, keySort{"elem|" + typeName(et) + l.Suffix, arrSort(true, l.Sort), nil})
 			}
 			return out, false
 		case "delete":
@@ -282,7 +282,7 @@ func (fc *FnCtx) assignTargets(env *SpecEnv, a *Clause) []assignTarget {
 	if strings.HasPrefix(a.Src, "ghost ") {
 		// scalar ghost variable, e.g. "ghost now"
 		name := strings.TrimSpace(strings.TrimPrefix(a.Src, "ghost "))
-		return []assignTarget{{ghost: "ghost|" + name, scalarGhost: true, keys: []keySort{{"ghost|" + name, ghostScalarSorts[name]}}}}
+		return []assignTarget{{ghost: "ghost|" + name, scalarGhost: true, keys: []keySort{{"ghost|" + name, ghostScalarSorts[name], nil}}}}
 	}
 	// s[lo:hi] or s[:] : elements of a slice
 	if e.K == "slice" {
@@ -302,13 +302,13 @@ func (fc *FnCtx) assignTargets(env *SpecEnv, a *Clause) []assignTarget {
 		}
 		t := assignTarget{isRng: true, s: s, lo: app("bvadd", s.Off, lo), hi: app("bvadd", s.Off, hi), et: et}
 		for _, l := range leavesOf(et) {
-			t.keys = append(t.keys, keySort{"elem|" + typeName(et) + l.Suffix, arrSort(true, l.Sort)})
+			t.keys = append(t.keys, keySort{"elem|" + typeName(et) + l.Suffix, arrSort(true, l.Sort), nil})
 		}
 		return []assignTarget{t}
 	}
 	if e.K == "call" && e.X[0].K == "id" && e.X[0].Name == "held" {
 		p, _ := env.evalLoc(e.X[1])
-		return []assignTarget{{ghost: fc.heldKey(p), ptr: p, keys: []keySort{{fc.heldKey(p), "(Array Int Bool)"}}}}
+		return []assignTarget{{ghost: fc.heldKey(p), ptr: p, keys: []keySort{{fc.heldKey(p), "(Array Int Bool)", nil}}}}
 	}
 	if e.K == "call" && e.X[0].K == "id" && e.X[0].Name == "mapof" {
 		x := env.eval(e.X[1])
@@ -319,7 +319,7 @@ func (fc *FnCtx) assignTargets(env *SpecEnv, a *Clause) []assignTarget {
 	prefix, elem := keyBase(p)
 	tg := assignTarget{ptr: p, t: t}
 	for _, l := range leavesOf(t) {
-		tg.keys = append(tg.keys, keySort{prefix + l.Suffix, arrSort(elem, l.Sort)})
+		tg.keys = append(tg.keys, keySort{prefix + l.Suffix, arrSort(elem, l.Sort), nil})
 	}
 	return []assignTarget{tg}
 }
@@ -349,7 +349,19 @@ func (br *bodyRun) applyContract(st *State, ct *Contract, key string, names []st
 		}
 	}
 	for i, c := range ct.Requires {
+		if fc.light && !strings.HasPrefix(c.Name, "effect") {
+			// light mode checks only effect preconditions (requires[effect-...])
+			continue
+		}
 		fc.prove(env, c.E, st, fmt.Sprintf("%spre-of:%s#%d:%s", br.prefix, short, ord, clauseName(c, i)), "pre-of", x.Pos(), c.Src)
+	}
+	// domain: the callee's postconditions are only known for inputs inside its verified domain
+	dom := "true"
+	for _, c := range ct.Domain {
+		dom = and(dom, fc.guarded(func() string { return fc.hyp(env, c.E) }, c))
+	}
+	if dom != "true" {
+		dom = fc.smt.defineAlways("dom", "Bool", dom)
 	}
 	pre := st.clone()
 	// the callee may allocate
@@ -359,6 +371,12 @@ func (br *bodyRun) applyContract(st *State, ct *Contract, key string, names []st
 		st.alloc = na
 	}
 	// havoc the frame
+	if ct.Light && !ct.HasAssigns {
+		// a light-mode contract says nothing about the frame
+		fc.havocAll(st)
+	} else if ct.Light {
+		fc.note("frame of light-mode function %s is assumed as declared (not checked)", short)
+	}
 	for _, a := range ct.Assigns {
 		if a.Src == "everything" {
 			fc.havocAll(st)
@@ -384,7 +402,7 @@ func (br *bodyRun) applyContract(st *State, ct *Contract, key string, names []st
 	}
 	bindResults(penv, sig, res)
 	for _, c := range ct.Ensures {
-		fc.assume(st, fc.guarded(func() string { return fc.hyp(penv, c.E) }, c))
+		fc.assume(st, implies(dom, fc.guarded(func() string { return fc.hyp(penv, c.E) }, c)))
 	}
 	return res
 }
@@ -512,6 +530,7 @@ func (br *bodyRun) inlineCall(st *State, fn *ssa.Function, bindings []Val, args 
 	if len(rets) == 0 {
 		// callee never returns on feasible paths
 		st.guard = "false"
+		st.lite = "false"
 		if rt == nil {
 			return nil
 		}
@@ -532,7 +551,7 @@ func (br *bodyRun) inlineCall(st *State, fn *ssa.Function, bindings []Val, args 
 			if v == nil {
 				v = rvals[k][i]
 			} else {
-				v = iteVal(t, rets[k].guard, rvals[k][i], v)
+				v = iteVal(t, rets[k].liteG(), rvals[k][i], v)
 			}
 		}
 		out = append(out, fc.nameVal(t, v, "ret"))
@@ -609,18 +628,104 @@ func (br *bodyRun) userAsserts(b *ssa.BasicBlock, idx int, ins ssa.Instruction, 
 			}
 			k := br.siteOrdinal(ci, name)
 			match = ord == 0 || ord == k
-		case len(fs) == 2 && fs[1] == "return":
+		case len(fs) == 2 && strings.HasPrefix(fs[1], "return"):
 			_, match = ins.(*ssa.Return)
+			if match && strings.Contains(fs[1], "#") {
+				ord := 0
+				fmt.Sscanf(fs[1][strings.Index(fs[1], "#")+1:], "%d", &ord)
+				k := 0
+				for _, bb := range br.fn.Blocks {
+					for _, in2 := range bb.Instrs {
+						if _, isRet := in2.(*ssa.Return); isRet {
+							k++
+							if in2 == ins {
+								match = k == ord
+							}
+						}
+					}
+				}
+			}
 		}
 		if !match {
 			continue
 		}
 		env := br.envAt(b, idx, st, nil)
+		env.resolveRet = func(site string) (TV, bool) {
+			name, ord := site, 1
+			if j := strings.Index(site, "#"); j >= 0 {
+				fmt.Sscanf(site[j+1:], "%d", &ord)
+				name = site[:j]
+			}
+			k := 0
+			for _, bb := range br.fn.Blocks {
+				for _, in2 := range bb.Instrs {
+					if c2, ok := in2.(ssa.CallInstruction); ok && calleeName(c2) == name {
+						k++
+						if k == ord {
+							v := c2.Value()
+							if v == nil {
+								return TV{}, false
+							}
+							rv, ok := fc.vals[v]
+							if !ok || !(bb.Dominates(b)) {
+								return TV{}, false
+							}
+							return TV{rv, v.Type()}, true
+						}
+					}
+				}
+			}
+			return TV{}, false
+		}
+		if ci, ok := ins.(ssa.CallInstruction); ok {
+			// the call's operands are visible as arg0, arg1, ... (receiver first)
+			c := ci.Common()
+			k := 0
+			if c.IsInvoke() {
+				env.vars["arg0"] = TV{fc.val(c.Value), c.Value.Type()}
+				k = 1
+			}
+			for j, av := range c.Args {
+				env.vars[fmt.Sprintf("arg%d", j+k)] = TV{fc.val(av), av.Type()}
+			}
+			if when == "after" {
+				if v := ci.Value(); v != nil {
+					if rv, ok := fc.vals[v]; ok {
+						env.vars["ret"] = TV{rv, v.Type()}
+						if tup, ok := rv.(TupleV); ok {
+							tt := v.Type().(*types.Tuple)
+							for j := range tup {
+								env.vars[fmt.Sprintf("ret%d", j)] = TV{tup[j], tt.At(j).Type()}
+							}
+						}
+					}
+				}
+			}
+		}
+		if ret, ok := ins.(*ssa.Return); ok {
+			var rs []Val
+			for _, r := range ret.Results {
+				rs = append(rs, fc.val(r))
+			}
+			var res Val
+			switch len(rs) {
+			case 0:
+			case 1:
+				res = rs[0]
+			default:
+				res = TupleV(rs)
+			}
+			bindResults(env, br.fn.Signature, res)
+		}
 		nm := a.Name
 		if nm == "" {
 			nm = fmt.Sprintf("%d", i+1)
 		}
 		br.assertHits[i]++
+		if fc.assertHit == nil {
+			fc.assertHit = map[*Clause]int{}
+		}
+		fc.assertHit[a]++
 		fc.prove(env, a.E, st, br.prefix+"assert:"+nm, "assert", ins.Pos(), a.Src)
 	}
 }
